@@ -172,6 +172,49 @@ func placeExec(c *Ctx, op string) {
 				defer syscall.Unmount(om, syscall.MNT_DETACH)
 			}
 			c.H(fmt.Sprintf("op:env:ovlwork=%v", envOvl))
+		case "again":
+			// the same shelf placed again at a destination it was placed at before and written through: (a) on top of the
+			// live placement, (b) after that mount was taken away by somebody else (no janitor ran — `rio unpack
+			// --placer=mount` never keeps one). The new placement shows the ware, not the earlier session's edits.
+			if shelfRef == "" || packPath != src {
+				continue
+			}
+			pfn, e := placer.GetMountPlacer()
+			if e != nil {
+				continue
+			}
+			d := newDst("absent")
+			if _, e := pfn(fs.MustAbsolutePath(shelf), fs.MustAbsolutePath(d), true); e != nil {
+				if !envOvl {
+					c.PropFail("placement-failed", "placer mountrw failed: "+e.Error(), op)
+				}
+				continue
+			}
+			os.WriteFile(filepath.Join(d, "written-by-user"), []byte("user"), 0644)
+			if sn, e := Snapshot(d); e == nil {
+				for _, x := range sn {
+					if x.Name != "" && x.Name != "written-by-user" {
+						os.RemoveAll(filepath.Join(d, x.Name))
+						break
+					}
+				}
+			}
+			syscall.Chmod(d, 0700)
+			if x[1] == "foreign-unmount" {
+				syscall.Unmount(d, 0)
+			}
+			jan2, e2 := pfn(fs.MustAbsolutePath(shelf), fs.MustAbsolutePath(d), true)
+			if e2 != nil {
+				c.H("op:again:" + x[1] + ":refused")
+			} else {
+				checkDst(d, "a second writable placement at a destination used (and written through) before ("+x[1]+")", true)
+				jan2.Teardown()
+				c.H("op:again:" + x[1])
+			}
+			for i := 0; i < 3 && mounted(d); i++ {
+				syscall.Unmount(d, 0)
+			}
+			checkShelf("after placing again at a used destination")
 		case "ubad":
 			// a cache hit whose placement cannot be carried out for a reason that has nothing to do with the shelf (the
 			// mount work area / the destination's parent is a plain file), while a read-only placement from the shelf is
@@ -498,6 +541,7 @@ func placeEngine(c *Ctx) {
 			}
 			ops = append(ops, fmt.Sprintf("u:%s:%s", modes[c.Intn(4)], pres[c.Intn(len(pres))]))
 		}
+		ops = append(ops, "again:"+[]string{"stacked", "foreign-unmount"}[k%2])
 		if k%2 == 0 {
 			ops = append(ops, "ubad:mount")
 		} else {
